@@ -166,6 +166,12 @@ class Schedules(Part):
                                 raise sqlite3.OperationalError("database is locked")
                     return self._c.execute(sql, *a)
 
+                def __iter__(self):             # rows may be streamed from the cursor
+                    return iter(self._c)
+
+                def __next__(self):
+                    return next(self._c)
+
                 def __getattr__(self, name):
                     return getattr(self._c, name)
 
